@@ -30,14 +30,22 @@ def run(ctx):
     ctx.mc('syncer', 'RegionSync', 'MC_RegionSync.cfg', timeout=600)
     seeds = [ctx.seed] if q else [ctx.seed + k for k in range(6)]
     for sd in seeds:
-        for cap, sim, tcfg in ((3, 'Sim_HistoryBuffer.cfg', 'Trace_HistoryBuffer.cfg'), (50, 'Sim_HistoryBuffer_50.cfg', 'Trace_HistoryBuffer_50.cfg')):
-            behs = ctx.simulate('syncer', 'HistoryBuffer', sim, num=25 if q else 250, depth=400, seed=sd)
+        # the third configuration records in bursts of 60-100 so that the flush points (every 100 records) are reached,
+        # with and without a failing write of the index
+        for cap, sim, tcfg in ((3, 'Sim_HistoryBuffer.cfg', 'Trace_HistoryBuffer.cfg'), (50, 'Sim_HistoryBuffer_50.cfg', 'Trace_HistoryBuffer_50.cfg'),
+                               (3, 'Sim_HistoryBuffer_burst.cfg', 'Trace_HistoryBuffer.cfg')):
+            burst = 'burst' in sim
+            behs = ctx.simulate('syncer', 'HistoryBuffer', sim, num=(25 if q else 120) if burst else (25 if q else 250), depth=40 if burst else 400, seed=sd)
             bj = os.path.join(ctx.dir, 'behs.json')
             json.dump([[{'action': s['action'], 'args': s['args'], 'state': {}} for s in b] for b in behs], open(bj, 'w'))
-            tr = os.path.join(ctx.dir, 'history_%d_%d.ndjson' % (cap, sd))
+            tr = os.path.join(ctx.dir, 'history_%d%s_%d.ndjson' % (cap, 'b' if burst else '', sd))
             vlib.run_harness(['syncer', 'history', 'in=' + bj, 'out=' + tr, 'cap=%d' % cap])
-            bad, evs = ctx.monitor_all('syncer', 'Trace_HistoryBuffer', tcfg, tr, 'history_%d_%d' % (cap, sd), timeout=3000)
-            handle(ctx, bad, evs, 'history_%d_%d' % (cap, sd))
+            label = 'history_%d%s_%d' % (cap, 'b' if burst else '', sd)
+            bad, evs = ctx.monitor_all('syncer', 'Trace_HistoryBuffer', tcfg, tr, label, timeout=3000)
+            handle(ctx, bad, evs, label)
+            if burst:
+                ctx.extra['failed_index_writes'] = ctx.extra.get('failed_index_writes', 0) + sum(1 for e in evs if e.get('pfail'))
+                ctx.extra['restarts_after_bursts'] = ctx.extra.get('restarts_after_bursts', 0) + sum(1 for e in evs if e.get('ev') == 'Restart')
             ctx.sample({'kind': 'operation on the real history buffer (capacity %d)' % cap, 'events': evs[1:4]})
     tr2 = os.path.join(ctx.dir, 'sync.ndjson')
     vlib.run_harness(['syncer', 'sync', 'out=' + tr2, 'sizes=%s' % ('quick' if q else 'all')], timeout=1800)
